@@ -532,8 +532,9 @@ def random_jobs(tier):
             for i, rot in enumerate(ROT):
                 for m, md in enumerate(MIN_DIST):
                     pos, r = diag[(i + m) % 3]
-                    out.append(((kind, sector, pos, r, rot, md), 2, 2, 0))
-        plan = [(RANDOM_KINDS, diag[1:2], [45], [0.7], 1, 3),
+                    out.append(((kind, sector, pos, r, rot, md), 1, 2, 0))
+        plan = [(RANDOM_KINDS, diag[1:2], [0, 45, 17], [0.3], 2, 2),
+                (RANDOM_KINDS, diag[1:2], [45], [0.7], 1, 3),
                 (RANDOM_KINDS, diag[2:3], [17], [0.3], 1, 3),
                 (RANDOM_KINDS[:2], diag[1:2], [45], [0.3], 1, 4)]
     for sc in SCALES:
